@@ -63,8 +63,8 @@ class _SStruct:
 
     @staticmethod
     def pack(fmt, *vals):
-        order = fmt[0]
-        body = fmt[1:] if order in "<>=!@" else fmt
+        order = fmt[0] if fmt[0] in "<>=!@" else "@"  # no prefix = native order (little-endian on the platforms the reader model assumes)
+        body = fmt[1:] if fmt[0] in "<>=!@" else fmt
         if not body.endswith("I"):
             raise core.Unmodelled("struct format %r" % fmt)
         cnt = int(body[:-1] or "1")
